@@ -185,7 +185,7 @@ def run(ctx):
             hist_kind[pu.KIND_NAMES[sc["srcs"][e["src"]]["msgs"][e["mi"]]["kind"]]] += 1
     ctx.coverage.update(
         evaluations=len(scs), distinct_nontrivial=len(nontrivial),
-        rule="scenario as in C13 (1-4 generated text logs + optionally a utmp / evtx / journal fixture, decoration options that change the byte counts, --blocksz, -a/-b windows with absolute bounds); every scenario is run with --summary, without it, and undecorated; non-trivial = at least two printed messages; distinct by option tuple + source kinds + window",
+        rule="scenario as in C13 (1-4 generated text logs + optionally a utmp / evtx / journal fixture, decoration options that change the byte counts, separators with multi-byte UTF-8 characters in every 4th scenario (counted in BYTES), lines longer than the print buffer in every 4th, sub-millisecond instants in every 4th, --blocksz, -a/-b windows with absolute bounds); every scenario is run with --summary, without it, and undecorated; non-trivial = at least two printed messages; distinct by option tuple + source kinds + window",
         samples=[pu.sc_public(sc) for sc in case_sc[:3]],
         scenarios_compared_with_model=len(cases), model_disagreements=len(bad),
         bytes_eq_stdout=stats["bytes_eq_stdout"], bytes_eq_stdout_minus_sgr=stats["bytes_eq_stripped"],
@@ -193,6 +193,10 @@ def run(ctx):
         windows=stats["windows"], generator_mismatch=stats["generator_mismatch"],
         too_large_for_model_run=stats["too_large_for_model_run"],
         printed_messages_by_kind=dict(hist_kind),
+        multibyte_separator_class=dict(scenarios=sum(1 for s in scs if s.get("mbsep")),
+                                       with_printed_messages=sum(1 for s in case_sc if s.get("mbsep") and s["events"]),
+                                       separators=sorted(set(s["sep"] for s in scs if s.get("mbsep")))),
+        long_line_class=sum(1 for s in scs if s.get("longcls")),
         histogram=dict(colour=sum(1 for s in case_sc if s["colour"]), separator=sum(1 for s in case_sc if s["sep"]),
                        supplied_newline=sum(1 for s in case_sc if any(pu.supplied_nl(s, e) for e in s["events"])),
                        fixture=sum(1 for s in case_sc if s["fixture"]), empty_runs=sum(1 for s in case_sc if not s["events"])))
